@@ -21,33 +21,42 @@ Definition zero_colors : dev -> list Z := fun _ => [0; 0; 0; 0].
 Definition colors_of (l : list (dev * list Z)) : dev -> list Z :=
   fun d => match find (fun x => fst x =? d) l with Some x => snd x | None => [0; 0; 0; 0] end.
 
-(* one case: the network is discovered (from an empty directory, under its own plan), then
-   the commands run under the run's plan with fresh occurrence counters *)
-Record mcase : Type := mkcase {
+(* one group of cases: the network is discovered once (from an empty directory, under its own
+   plan); then every run of the group executes its commands under its own plan with fresh
+   occurrence counters and device colours *)
+Record mrun : Type := mkrun {
   m_id : Z;
-  m_net : network;
-  m_colors : list (dev * list Z);     (* what each light answers to get_color initially *)
-  m_dplan : list (dev * rkind * stream);
   m_rplan : list (dev * rkind * stream);
-  m_cmds : list cmd
+  m_cmds : list cmd;
+  m_expect : string          (* what the implementation did: "<result>|<requests>" *)
+}.
+Record mgroup : Type := mkgroup {
+  g_id : Z;
+  g_net : network;
+  g_colors : list (dev * list Z);     (* what each light answers to get_color initially *)
+  g_dplan : list (dev * rkind * stream);
+  g_expect : string;         (* "D<end>|<discovery requests>|<directory>|" *)
+  g_runs : list mrun
 }.
 
-Definition model_case (c : mcase) : string :=
-  let '(_, e, dir, dt) := discover current [] (init_state (plan_of_list (m_dplan c)) [0; 0; 0; 0] zero_colors) (m_net c) in
-  let head := "D" +++ show_end e +++ "|" +++ show_trace dt +++ "|" +++ show_view (view dir) +++ "|" in
-  match e with
-  | Raised => head
-  | Reported _ =>
-      let '(_, res, t) := run current dir (init_state (plan_of_list (m_rplan c)) [0; 0; 0; 0] (colors_of (m_colors c))) (m_cmds c) in
-      head +++ show_result res +++ "|" +++ show_trace t
-  end.
+Definition model_run (dir : directory) (colors : dev -> list Z) (r : mrun) : string :=
+  let '(_, res, t) := run current dir (init_state (plan_of_list (m_rplan r)) [0; 0; 0; 0] colors) (m_cmds r) in
+  show_result res +++ "|" +++ show_trace t.
 
 (* compare inside Coq: print only the cases whose model value differs from what the
-   implementation did (written by the harness as the expected string) *)
-Definition model_check (l : list (mcase * string)) : string :=
-  sconcat (map (fun ce =>
-    let got := model_case (fst ce) in
-    if String.eqb got (snd ce) then "" else show_Z (m_id (fst ce)) +++ "=" +++ got +++ "#") l).
+   implementation did *)
+Definition model_group (g : mgroup) : string :=
+  let '(_, e, dir, dt) := discover current [] (init_state (plan_of_list (g_dplan g)) [0; 0; 0; 0] zero_colors) (g_net g) in
+  let head := "D" +++ show_end e +++ "|" +++ show_trace dt +++ "|" +++ show_view (view dir) +++ "|" in
+  (if String.eqb head (g_expect g) then "" else show_Z (g_id g) +++ "=" +++ head +++ "#") +++
+  match e with
+  | Reported true =>
+      sconcat (map (fun r =>
+        let got := model_run dir (colors_of (g_colors g)) r in
+        if String.eqb got (m_expect r) then "" else show_Z (m_id r) +++ "=" +++ got +++ "#") (g_runs g))
+  | _ => ""
+  end.
+Definition model_check (l : list mgroup) : string := sconcat (map model_group l).
 
 (* a second discovery on top of a directory obtained from a first one *)
 Definition model_rediscover (net1 net2 : network) (p2 : list (dev * rkind * stream)) : string :=
